@@ -216,21 +216,21 @@ def check_bound_plumb(ctx, R):
         R.ob('BOUND-PLUMB', con, 'maxsize', ok and fifo,
              'the bound parameter n does not reach Queue(maxsize=...) of a FIFO tornado Queue (found %s)' % src(call),
              ctx.where(init, call.lineno))
-        up = cls.methods['update']
-        bad = None
-        for st, status in ctx.paths(up, cls):
-            rets = [e for e in st.events if e.kind == 'RETURN' and e.depth == 0]
-            if status == 'raise':
+        # on symbolic normal forms (helpers - also module-level ones that take the node - and temporaries transparent):
+        # every normal path of update returns the put() awaitable of the bounded queue
+        from ..symexpr import SymEval, nf as snf
+        up = cls.find('update')
+        bad, n = None, 0
+        for r in SymEval(M, cls).run(up):
+            if r.raised:
                 continue
-            node = rets[-1].x.get('node') if rets else None
-            direct = isinstance(node, ast.Call) and _call_name(node) == 'put' and self_field(node.func.value) == f
-            via_local = bool(rets) and isinstance(node, ast.Name) and any(
-                t.startswith('put:%s@' % f) for t in (rets[-1].b or ()))
-            if not (direct or via_local):
-                bad = st.events
-        R.ob('BOUND-PLUMB', con, 'update-returns-put', bad is None,
-             'buffer.update does not return the bounded queue\'s put() future on every path',
-             ctx.where(up, up.node.lineno), fmt_path(bad) if bad else None)
+            n += 1
+            t = snf(r.ret)
+            if not (t.startswith('self.%s.put(' % f) and t.endswith(')')):
+                bad = 'a path of buffer.update returns %s' % t[:70]
+        R.ob('BOUND-PLUMB', con, 'update-returns-put', bad is None and n > 0,
+             'buffer.update does not return the bounded queue\'s put() future on every path (%s)' % bad,
+             ctx.where(up, up.node.lineno), None, n)
     # ---- map_async(parallelism): asyncio.Queue(maxsize=parallelism); wait for a slot before creating the job
     cls = M.cls('streamz.core', 'map_async')
     con = 'streamz.core.map_async'
@@ -275,23 +275,18 @@ def check_bound_plumb(ctx, R):
             for w in wait_loops.values())
         R.ob('BOUND-PLUMB', con, 'slot-wait-loop', okw,
              'map_async does not wait (yielding to the event loop) while the work queue is full', ctx.where(ij, ij.node.lineno))
-        up = cls.methods['update']
-        bad = None
-        for st, status in ctx.paths(up, cls):
-            if status == 'raise':
+        from ..symexpr import SymEval, nf as snf
+        up = cls.find('update')
+        bad, n = None, 0
+        for r in SymEval(M, cls).run(up):
+            if r.raised:
                 continue
-            rets = [e for e in st.events if e.kind == 'RETURN' and e.depth == 0]
-            ok = rets and any(e.kind == 'SELFCALL' and e.a == '_insert_job' for e in st.events) and \
-                rets[-1].x.get('node') is not None and '_insert_job' in src(rets[-1].x['node'])
-            if not ok:
-                # the task may be bound to a local first
-                ok = rets and any(e.kind == 'SELFCALL' and e.a == '_insert_job' for e in st.events) and \
-                    isinstance(rets[-1].x.get('node'), ast.Name)
-            if not ok:
-                bad = st.events
-        R.ob('BOUND-PLUMB', con, 'update-returns-job', bad is None,
-             'map_async.update does not hand the queued-job task back to its caller', ctx.where(up, up.node.lineno),
-             fmt_path(bad) if bad else None)
+            n += 1
+            if 'self._insert_job(x,metadata)' not in snf(r.ret):
+                bad = 'a path of map_async.update returns %s' % snf(r.ret)[:70]
+        R.ob('BOUND-PLUMB', con, 'update-returns-job', bad is None and n > 0,
+             'map_async.update does not hand the queued-job task back to its caller (%s)' % bad, ctx.where(up, up.node.lineno),
+             None, n)
     # ---- zip(maxsize): over-full buffer => return condition.wait()
     cls = M.cls('streamz.core', 'zip')
     con = 'streamz.core.zip'
